@@ -11,7 +11,10 @@ onsleep <n> <rule>*n                              arm: while the next queued req
                                                   (the entry during which it happens reports ` reload:<rules in force>`)
 load <n> <rule>*n                                 hotspot.LoadRules on a cleared module  => number of rules in force
       rule = res=<name>,cb=<0|1|k>,idx=<int>,key=<name|->,T=<int>,burst=<int>,D=<int>,mq=<int>,cap=<int>,items=<-|val@int;val@int…>
-entry <res> <batch> <nargs> <val|+>*nargs <natt> <key=val>*natt     (`+` starts another WithArgs option)
+attmap <name> <n> <key=val>*n                     a caller-owned attachments map, reused (the same map object) by later entries
+entry <res> <batch> <nargs> <val|+>*nargs <natt> <att>*natt     (`+` starts another WithArgs option)
+      att = key=val (a run of them = one WithAttachments of a map built for the call) | @<name> (WithAttachments of the
+            caller-owned map) | !key=val (a single WithAttachment option); options apply left to right
 sweep <res> <batch> <prefix> <lo> <hi>            one entry per k in [lo,hi) with the single argument <prefix>k (e.g. v:i:)
       => run-length encoded results `<n>x<result>;…` (spaces as `_`)
       => pass | block <rule#> | spin, optionally followed by ` w:<ns>,<ns>…` (sleeps asked of the clock, in order)
@@ -63,7 +66,21 @@ structure Entry where
   args : List Val
   atts : List (String × Val)
 
-def parseEntry (ts : List String) : Option Entry :=
+/-- caller-owned attachment maps (`attmap`): what the caller put into them — an `Entry` call never changes them -/
+abbrev Maps := List (String × List (String × Val))
+
+/-- the attachments one call passes: the option tokens left to right, a later option overriding an earlier one for
+    the same key.  `@m` = `WithAttachments(<caller's map m>)`, `!k=v` = `WithAttachment(k, v)`, a run of plain `k=v` =
+    one `WithAttachments` of a map built for this call. -/
+def resolveAtts (maps : Maps) (toksA : List String) : Option (List (String × Val)) :=
+  toksA.foldlM (fun (acc : List (String × Val)) tok =>
+    let put (acc : List (String × Val)) (kv : String × Val) := kv :: acc.filter (·.1 ≠ kv.1)
+    if tok.startsWith "@" then
+      (maps.lookup (tok.drop 1).toString).map fun m => m.foldl put acc
+    else if tok.startsWith "!" then some (put acc (splitFirst (tok.drop 1).toString "="))
+    else some (put acc (splitFirst tok "="))) []
+
+def parseEntry (maps : Maps) (ts : List String) : Option Entry :=
   match ts with
   | "entry" :: res :: b :: na :: rest =>
     match b.toNat?, na.toNat? with
@@ -71,14 +88,22 @@ def parseEntry (ts : List String) : Option Entry :=
       let args := (rest.take na).filter (· ≠ "+")     -- `+` starts another WithArgs option: the options' arguments are appended
       match rest.drop na with
       | nt :: rest2 =>
-        match nt.toNat? with
-        | some nt =>
+        match nt.toNat?, resolveAtts maps rest2 with
+        | some nt, some atts =>
           if (rest.take na).length = na ∧ rest2.length = nt then
-            some { res := res, b := b, args := args, atts := rest2.map fun kv => splitFirst kv "=" }
+            some { res := res, b := b, args := args, atts := atts }
           else none
-        | none => none
+        | _, _ => none
       | [] => none
     | _, _ => none
+  | _ => none
+
+def parseAttmap (ts : List String) : Option (String × List (String × Val)) :=
+  match ts with
+  | "attmap" :: name :: n :: kvs => match n.toNat? with
+    | some n => if kvs.length = n then some (name, kvs.foldl (fun acc kv =>
+        let p := splitFirst kv "="; p :: acc.filter (·.1 ≠ p.1)) []) else none
+    | none => none
   | _ => none
 
 def showSleeps (sl : List Int) : String :=
@@ -90,6 +115,7 @@ structure St where
   ctls : List Ctl := []
   nowNs : Int := 0
   gen : Nat := 0              -- number of loads so far; a controller created by load `g` at position `i` is rule# g*1000+i
+  maps : Maps := []
   armed : Option (List Rule) := none   -- `onsleep`: the reload another goroutine performs while the next queued request sleeps
 
 def entryModel (s : St) (e : Entry) : St × String :=
@@ -134,7 +160,10 @@ def stepModel (s : St) (ts : List String) (_ : String) : St × Option String :=
   | "onsleep" :: n :: rules => match n.toNat?, rules.mapM parseRule with
       | some n, some rs => if rs.length ≠ n then (s, some "bad-op") else ({ s with armed := some rs }, none)
       | _, _ => (s, some "bad-op")
-  | "entry" :: _ => match parseEntry ts with
+  | "attmap" :: _ => match parseAttmap ts with
+      | some (name, m) => ({ s with maps := (name, m) :: s.maps.filter (·.1 ≠ name) }, none)
+      | none => (s, some "bad-op")
+  | "entry" :: _ => match parseEntry s.maps ts with
       | none => (s, some "bad-op")
       | some e => let (s', r) := entryModel s e; (s', some r)
   | ["sweep", res, b, pre, lo, hi] => match b.toNat?, lo.toNat?, hi.toNat? with
@@ -171,6 +200,7 @@ structure ORule where
 structure OSt where
   rules : List ORule := []
   gen : Nat := 0
+  maps : Maps := []
   armed : Option (List Rule) := none
   nowNs : Int := 0
   t0 : Option Int := none
@@ -396,7 +426,10 @@ def stepOracle (s : OSt) (ts : List String) (line : String) : OSt × Option Stri
   | "onsleep" :: n :: rules => match n.toNat?, rules.mapM parseRule with
       | some n, some rs => if rs.length ≠ n then (s, some "bad-op") else ({ s with armed := some rs }, none)
       | _, _ => (s, some "bad-op")
-  | "entry" :: _ => match parseEntry ts, resPart line with
+  | "attmap" :: _ => match parseAttmap ts with
+      | some (name, m) => ({ s with maps := (name, m) :: s.maps.filter (·.1 ≠ name) }, none)
+      | none => (s, some "bad-op")
+  | "entry" :: _ => match parseEntry s.maps ts, resPart line with
       | some e, some r => let (s', v) := judgeResult s e r; (s', some v.show)
       | some _, none => (s, some "bad unparsable-result")
       | none, _ => (s, some "bad-op")
